@@ -46,7 +46,21 @@ fn limit_cfg(rng: &mut Rng, which: &str, l: u32, via_config: bool) -> (Cfg, Stri
             _ => cfg.depth_limit = l,
         }
     }
-    let _ = rng;
+    // options which must not influence what a limit does
+    if rng.chance(1, 3) {
+        cfg.use_local_styles = true;
+    }
+    if rng.chance(1, 4) {
+        cfg.debug = true;
+    }
+    if rng.chance(1, 4) {
+        cfg.add_metadata = true;
+    }
+    if rng.chance(1, 4) {
+        cfg.theme = rng.pick(crate::docgen::THEMES).to_string();
+        cfg.scale = 2.0;
+        cfg.seed = rng.below(50);
+    }
     (cfg, prefix)
 }
 
@@ -354,11 +368,30 @@ impl Engine for C17 {
                     // still unexpanded ("$label"): keep the limit above such placeholders
                     let (l, n) = if kind.contains("reuse") && l < 16 { (l + 16, n + 16) } else { (l, n) };
                     let (cfg, prefix) = limit_cfg(&mut w, "var", l, via_config);
-                    let val: String = (0..n).map(|i| (b'a' + (i % 26) as u8) as char).collect();
+                    let val: String = if w.chance(1, 3) {
+                        // multi-byte characters at a drawn byte offset (limits count bytes;
+                        // nothing may slice through a character)
+                        let pre = w.usize(n.min(40) + 1);
+                        let mut v = "a".repeat(pre);
+                        let mb = *w.pick(&["é", "→", "ß", "😀"]);
+                        while v.len() + mb.len() <= n {
+                            v.push_str(mb);
+                        }
+                        while v.len() < n {
+                            v.push('b');
+                        }
+                        v
+                    } else {
+                        (0..n).map(|i| (b'a' + (i % 26) as u8) as char).collect()
+                    };
                     let body = match kind {
                         "literal" => format!("<var v=\"{val}\"/><text xy=\"0 0\" text=\"$v\"/>"),
                         "concat" => {
-                            let (a, b) = val.split_at(n / 2);
+                            let mut cut = n / 2;
+                            while !val.is_char_boundary(cut) {
+                                cut -= 1;
+                            }
+                            let (a, b) = val.split_at(cut);
                             format!("<var a=\"{a}\" b=\"{b}\"/><var v=\"${{a}}${{b}}\"/><text xy=\"0 0\" text=\"$v\"/>")
                         }
                         "copy" => format!("<var w=\"{val}\"/><var v=\"$w\"/><text xy=\"0 0\" text=\"$v\"/>"),
